@@ -20,7 +20,7 @@ ASSUMPTIONS = ["offsets beyond the committed size are unspecified", "a writer wh
 def seq(r):
     ops = []
     nw = 0
-    keys = [("a", 0), ("a", 1), ("b", 0)]
+    keys = [("a", 0), ("a", 1), ("b", 0), ("a", 2)]
     live = []
     for _ in range(r.rng(3, 12)):
         k = r.below(100)
@@ -63,6 +63,21 @@ def directed():
     return out
 
 
+def directed_partitions():
+    """three committed partitions of one task discarded in every order: after each discard the other partitions still
+    return their bytes (from an offset) and their record count"""
+    import itertools as it
+    out = []
+    pre = "create a 0 ; write 0 aa ; commit 0 1 ; create a 1 ; write 1 bbb ; commit 1 2 ; create a 2 ; write 2 c ; commit 2 3"
+    look = " ; ".join("stat a %d ; open a %d %d" % (p, p, p % 2) for p in (0, 1, 2))
+    for order in it.permutations((0, 1, 2)):
+        out.append(pre + " ; " + " ; ".join("discard a %d ; %s" % (p, look) for p in order))
+    # and partitions committed out of order, with a gap
+    out.append("create a 2 ; write 0 zz ; commit 0 4 ; stat a 0 ; stat a 1 ; stat a 2 ; create a 0 ; write 1 q ; commit 1 1 ; "
+               "discard a 2 ; stat a 0 ; open a 0 0 ; stat a 2")
+    return out
+
+
 def directed_local():
     """the file store on the real local file system: the directory removed under live writers"""
     out = []
@@ -79,7 +94,7 @@ def gen(r, tier, sub):
     if sub == "C15":
         for s in directed_local():
             yield "lfile FAIL 0 ; " + s
-        for s in directed():
+        for s in directed() + directed_partitions():
             yield "mem FAIL 0 ; " + s
             yield "file FAIL 0 ; " + s
         n = 250 if tier == "quick" else 4000
